@@ -18,7 +18,8 @@ CLAIMED = {
        "minus one (value-evaluated); provenance of Block sizes, Index/footer fields, check type, .lzma header. Conformance of "
        "whole streams under an independent decoder is NOT decided. Also (BLKOPT) compressed_size/uncompressed_size of the in/out Block options are reset on every path to lzma_block_header_size() in each function that starts a Block."
        + " Further rules: (FALLBACK) the uncompressed-chunk fallback of the LZMA2 encoder is entered exactly on the documented condition and resets state afterwards."
-       + " (DICTROUND) dictionary-size rounding smear has every distance except 1; (BOUND) lzma2_bound in normal form n + 3*ceil(n/65536) + 1; SHA-256 structure rules of C14.",
+       + " (DICTROUND) dictionary-size rounding smear has every distance except 1; (BOUND) lzma2_bound in normal form n + 3*ceil(n/65536) + 1; SHA-256 structure rules of C14."
+       + ' (DICTDECL) the match-finder window is derived from the declared dictionary size only.',
   technique="layout-fact extraction and comparison (encoder vs decoder vs spec), expression evaluation on sample values, finite-domain evaluation",
   ref="4/C02"),
  "C14": dict(
@@ -65,7 +66,8 @@ CLAIMED = {
        "`echo $?`, xzdiff checks readability first and maps decompressor failure to 2. NOT decided: equality of output and "
        "exit status with grep/diff/cmp, behaviour of sed/expr/grep themselves. Also: xzdiff decompresses each operand with the decompressor chosen from its own suffix; xzgrep's exit status accumulator only moves under a test of its current value."
        + " xzdiff's three suffix lists are identical."
-       + " (STATUS) xzgrep's result accumulator is evaluated over all (res, r) pairs; xzdiff selects a decompressor for each operand from its own name and keeps stdin for a '-' operand.",
+       + " (STATUS) xzgrep's result accumulator is evaluated over all (res, r) pairs; xzdiff selects a decompressor for each operand from its own name and keeps stdin for a '-' operand."
+       + " (STATUS decomp-failure) a failed decompressor makes the file's status >= 2 for every grep status.",
   technique="shell AST taint and quoting-context analysis; idiom (typestate) rule on accumulator stores; case-arm coverage of the quote character; constant evaluation of the sed programs",
   ref="4/C20"),
  "C15": dict(
@@ -133,7 +135,8 @@ CLAIMED = {
        "update functions restricted to their safe states, validate before storing, and cannot change Filter IDs; action "
        "conversion table. That the flushed prefix decodes to the input is NOT decided. Also (BTFLUSH) binary-tree match finders defer to move_pending() during LZMA_SYNC_FLUSH; (PROPS) lzma_lzma_encoder_reset recomputes the lc/lp/pb masks; stream_encoder_update clears block_encoder_is_initialized before trying a new chain."
        + " get_thread hands every woken worker the cached filter chain."
-       + ' (MTFLUSH) the threaded encoder reports a flush complete only when the output queue is empty and LZMA_FINISH only after the Index was encoded.',
+       + ' (MTFLUSH) the threaded encoder reports a flush complete only when the output queue is empty and LZMA_FINISH only after the Index was encoded.'
+       + " (FSM) lzma_code's transition relation (C11) is evaluated here too: a completed flush/barrier returns to ISEQ_RUN.",
   technique="must-pass-through (edge cut) on finite-domain product graphs, dominator rules, table comparison",
   ref="4/C12"),
  "C09": dict(
@@ -149,7 +152,8 @@ CLAIMED = {
        + " (NEEDED) the amount compared with the hard limit before LZMA_MEMLIMIT_ERROR is what memconfig reports; (CLAMP) an order between limit members established by a clamp is re-established at every later store; (STALENEXT) memconfig uses a lazily initialised nested decoder only behind a test of coder->sequence."
        + " (SATURATE) sums of memory-usage figures that may be UINT64_MAX are saturated."
        + ' (USAGE) memconfig callbacks report the figure the limit was checked against; (TERMS) LZMA2 history reserve and the MT-encoder default limit are part of the sums compared with the limit.'
-       + " (OPTPATH) every store to lzma_lz_options on an encoder's init path has a live counterpart on its memusage path.",
+       + " (OPTPATH) every store to lzma_lz_options on an encoder's init path has a live counterpart on its memusage path."
+       + ' (FREEFIRST) a cached buffer replaced because its size key changed is freed before its replacement is allocated; (NEEDED) lzma_stream_buffer_decode reports the need through *memlimit.',
   technique="must-pass-through (edge cut) on finite-domain product graphs, table joins, dominance rules",
   ref="4/C09"),
  "C04": dict(
@@ -163,7 +167,8 @@ CLAIMED = {
        + " Further rules: BUF_ERROR from lzma_index_hash_decode cannot escape stream_decode/stream_decode_mt (call only with *in_pos < in_size)."
        + " (WAIT) lost-wake-up rule of C07 on the threaded decoder; dict_get/dict_repeat sibling and DICTFRESH rules."
        + " (ALLOCSZ lower bound) a member used as the element count of a header+array allocation whose element 0 is written at once is never stored as 0."
-       + " (DISTVALID) every use of a decoded match distance is dominated by the dictionary-validity test; (SEEK) rules of C13 for the file-info decoder's seek target.",
+       + " (DISTVALID) every use of a decoded match distance is dominated by the dictionary-validity test; (SEEK) rules of C13 for the file-info decoder's seek target."
+       + ' (READFIRST) no coding function reads a member that nothing in the session stored (all coder records).',
   technique="must-availability dataflow on a finite-domain product graph, interprocedural return-code sets with slot typestate, type-agreement joins",
   ref="4/C04"),
  "C11": dict(
@@ -175,7 +180,8 @@ CLAIMED = {
        "the documented ones. Does NOT decide that no memory outside the buffers is touched. Also (OUTIDX) the bounds fact *out_pos < out_size is available at every out[*out_pos] store of the streaming encoders."
        + " Further rules: lzma_index_hash_decode is called only with input available (shared with C04)."
        + " (RESTORE) after a single-call function restored *in_pos/*out_pos the position is not read again (11 sites)."
-       + ' (UNINIT) every access through strm->internal in a public function is preceded by its NULL test or by lzma_strm_init().',
+       + ' (UNINIT) every access through strm->internal in a public function is preceded by its NULL test or by lzma_strm_init().'
+       + ' (TIMEOUT) a timed-out wait of the threaded coders is reported as LZMA_TIMED_OUT.',
   technique="exhaustive finite-domain abstract interpretation of the wrapper's CFG vs a protocol table; structural def-use rules",
   ref="4/C11"),
  "C16": dict(
@@ -186,7 +192,8 @@ CLAIMED = {
        "with known size; auto SEQ_FINISH rules; xz's sniffers use liblzma's magic bytes. Stream Padding rule is decided under "
        "C05. Decoded content is NOT decided. Also (RESUME) the liveness/save-restore rule on the .lzma/.lz/auto decoders; (INITONCE/INITCONS) the format decoder is initialised once and a re-used decoder starts like a fresh one."
        + " Further rules: auto decoder goes to SEQ_FINISH only for .lzma; picky mode accepts exactly 2^n and 2^n+2^(n-1) (smear distance set); .lz header bytes are counted in member_size before any non-fatal return; (READFIRST) as in C06."
-       + " (STALENEXT) as in C09.",
+       + " (STALENEXT) as in C09."
+       + ' (C17-FAIL) xz accepts a .lzma/raw stream only if the one-byte probe finds nothing after it.',
   technique="finite-domain abstract interpretation vs spec tables, effect rules and must-pass rules on the product graph, cross-TU table agreement",
   ref="4/C16"),
  "C03": dict(
@@ -198,7 +205,8 @@ CLAIMED = {
        "Does NOT decide that accepted streams decode to the specified bytes. Also (DICTRESET) lz_decoder_reset() re-initialises every lzma_dict member that decoding modifies; (RESUME) the liveness/save-restore rule of C06 applied to the decoder functions."
        + " Further rules: (BLOCK) the block_decode obligations of C05; (RESET) the probability reset rule of C01 on the decoder."
        + " (SEQLABEL) each suspension of lzma_decode stores the state whose case label it sits under; (FASTSLOW) both copies of the symbol decoder expand literal_subcoder identically; (DICTFRESH)."
-       + ' (DICTFRESH) a helper that copies into the dictionary recomputes dict.full.',
+       + ' (DICTFRESH) a helper that copies into the dictionary recomputes dict.full.'
+       + ' (READFIRST) decoders and filters start from what their init function stores.',
   technique="finite-domain abstract interpretation of decision expressions vs spec tables, guard obligations, reachability on the product graph",
   ref="4/C03"),
  "C07": dict(
@@ -223,7 +231,8 @@ CLAIMED = {
        "re-initialisation (fixed). Schedule-independence of the output bytes is NOT decided. Also (STOPACK) a stopped worker reports idle only after its last access to coder-mutex data and never overwrites THR_EXIT; (QUIESCE) the init function stores to worker-visible members only after threads_stop/threads_end; (INITCONS) members (threads_free, thr, ...) initialised on some OK paths are initialised on all."
        + " Further rules: progress-transfer-atomic: a finished worker's progress moves from the per-thread to the coder totals in one critical section."
        + " (SIZEKEY) coder->block_size changes only together with the workers' input buffers; (OUTQRESET); get_progress takes one snapshot under coder->mutex."
-       + " (WAITPRED) as in C07: the worker error flag is part of wait_for_work()'s predicate.",
+       + " (WAITPRED) as in C07: the worker error flag is part of wait_for_work()'s predicate."
+       + ' (ERR progress-zero-before-free) a worker returning to the free list has zeroed its counters; (BOUND) as in C02.',
   technique="must-lockset dataflow over a finite-domain product graph, protected-field table, must-pass rules",
   ref="4/C08"),
  "C10": dict(
@@ -236,7 +245,8 @@ CLAIMED = {
        + " Further rules: (ALIAS) a freed member is cleared or overwritten before any path can free it again, with the callers that clear it listed."
        + " (SIZEKEY) a member that gives the allocated size of a kept buffer changes only with the buffer (7 pairs discovered from allocation sites); CACHEKEY fail-path: the key is invalidated when the re-allocation fails."
        + " (SYNCEND) every mutex/condition variable initialised for a coder is destroyed by its end function or by the joined worker."
-       + ' (LOCALIDX) an index allocated by a function is freed on each of its failing paths; (LOCALOWN) lzma_raw_coder_init frees the partially built chain on failure.',
+       + ' (LOCALIDX) an index allocated by a function is freed on each of its failing paths; (LOCALOWN) lzma_raw_coder_init frees the partially built chain on failure.'
+       + ' (REOWN) on the re-use path of an init function an owned member is released before it is overwritten.',
   technique="ownership/effect dataflow over clang CFGs, field-coverage joins over record layouts, unused-result rule on resolved callees",
   ref="4/C10"),
  "C13": dict(
@@ -249,7 +259,8 @@ CLAIMED = {
        + " Further rules: (APPLY) padding found / bytes used in one call are applied to stream_padding etc. on every non-fatal way out; PROV also: number-base, totals line sums lzma_index_file_size."
        + " (IDXDEC) index_decode ends only through its checks; (TREEWALK) no link member read after index_tree_append; (CURPOS) file_cur_pos advances only by application input."
        + " (ITERSTATE) the iterator encodes 'Stream without Record group' with its own method value."
-       + ' (TOTALS) lzma_index_append bounds the running totals it maintains.',
+       + ' (TOTALS) lzma_index_append bounds the running totals it maintains.'
+       + " (CRC) the Index decoder's running CRC32 covers exactly the bytes before the CRC32 field; (ITER nonempty-base); (INITCONS/READFIRST) for the file-info and Index decoders.",
   technique="field-coverage and effect-ordering dataflow on the product graph, dominator-based guard rules, who-may-write",
   ref="4/C13"),
  "C05": dict(
@@ -271,7 +282,8 @@ CLAIMED = {
        + " Further rules: (READFIRST) every member a coding function can read before storing to it is stored by the init function on all OK paths (whole-record, 109 instances); (APPLY) an amount measured in one call is applied to its persistent member on every non-fatal way out; (ACCUM); (PROV) match-finder window geometry keeps after_size + match_len_max bytes ahead; (END/SLICE) Block encoder ends only after the Check was copied."
        + " (SEQLABEL) as in C03."
        + " (OUTGUARD) a decoder's state loop is not guarded by output space when some state needs none."
-       + ' (ENCRESET) lzma_lzma_encoder_reset() stores to every counter that triggers recomputation of a price table (the tables are caches of the probabilities).',
+       + ' (ENCRESET) lzma_lzma_encoder_reset() stores to every counter that triggers recomputation of a price table (the tables are caches of the probabilities).'
+       + ' (EMITSTATE) rc_shift_low carries its loop state in rc members only; (CRC field-not-hashed) bytes of the CRC32 field are never hashed.',
   technique="liveness + reaching definitions over resume labels (clang CFG), finite-domain product-graph dataflow, call-graph reachability",
   ref="4/C06"),
 }
